@@ -375,7 +375,7 @@ def gen_results(rng, idx):
         results['P'] = ['plus_identity', ['add', 'X', 'Y'], cpx(rng, False), cpx(rng, False, real=True)]
         results['PS'] = ['add', ['plus_identity', 'Y', cpx(rng, False), [1.0, 0.0]], 'X']
     case = {'kind': 'results', 'site': {'type': kind, 'conserve': conserve}, 'L': L, 'bc': 'finite' if finite else 'infinite', 'nwin': nwin,
-            'seed': 9000 + idx, 'operands': operands, 'results': results, 'long': {'range': rl, 'hermitian': herm_long, 'pair': how},
+            'seed': 9000 + idx, 'operands': operands, 'results': results, 'long': {'range': rl, 'i0': i0, 'hermitian': herm_long, 'pair': how},
             'compare': [['S', 'S2'], ['S2', 'S'], ['S', 'Sr'], ['Sr', 'S2'], ['S', 'S'], ['D', 'S'], ['T', 'S'], ['DS', 'Sr']],
             'ev_max_range': rng.choice([12, 30, 200])}
     if finite:
@@ -933,7 +933,14 @@ def check_results(ctx, case, r):
             probs.append(('C11:results:is_equal:false-negative', '%s.is_equal(%s) is False for the same operator (%s, %s; max_range of the operands %s)'
                           % (a, b, case['results'][a], case['results'][b], tags)))
         if rel > 1e-6 and r['is_equal'][key]:
-            probs.append(('C11:results:is_equal:false-positive', '%s.is_equal(%s) is True although the operators differ (relative distance %.2e on the window) in a '
+            key_ = 'C11:results:is_equal:false-positive'
+            claim = r['results'][a].get('max_range')
+            if not finite and claim is not None and claim != 'inf' and claim >= terms_of(case['results'][a])[1] and \
+                    L + 2 * claim < case['long']['i0'] + case['long']['range'] + 1:
+                # known (F115): the window is L + 2 * self.max_range for a CORRECT short range of self; the longer coupling of `other`
+                # does not fit into it
+                key_ = 'C11:is_equal:infinite-window-ignores-range-of-other'
+            probs.append((key_, '%s.is_equal(%s) is True although the operators differ (relative distance %.2e on the window) in a '
                           'coupling of range %d <= 3L-1 (%s = %s, %s = %s; max_range of the operands %s; claimed max_range of %s: %s)'
                           % (a, b, rel, case['long']['range'], a, case['results'][a], b, case['results'][b], tags, a, r['results'][a].get('max_range'))))
     for nm, e in r['errors'].items():
@@ -1039,7 +1046,7 @@ def main(ctx):
     n_inf = ctx.pick(120, 1000)
     n_prop = ctx.pick(16, 120)
     n_ui = ctx.pick(150, 700)
-    n_res = int(os.environ.get('C11_NRES', ctx.pick(108, 900)))
+    n_res = ctx.pick(108, 900)
     if not ctx.proof.ok:
         n_res = int(n_res * 1.5)
     if not ctx.proof.ok:
@@ -1118,11 +1125,12 @@ def main(ctx):
         for i in range(len(lits)):
             ctx.count(name, [name, i, lits[i][:200]], nontrivial=True)
         total += len(lits)
-    if os.environ.get('C11_DEBUG'):
-        import json as _j
-        _j.dump(ctx.violations, open(os.environ['C11_DEBUG'], 'w'), default=str)
     ctx.cov['traces_validated_against_impl'] = total
     ctx.assumptions += [
+        'C11 results stream: a claimed max_range is checked as an upper bound of the true range (None / inf always admissible); the differing / '
+        'non-Hermitian coupling always lies inside the sites range(3 L) that is_equal documents for an unknown range; to_TermList is compared after '
+        'sort_legcharges() (before: known finding F117-C11) and not after plus_identity with beta != 1 (to_TermList starts every term with weight 1); '
+        'a multiple of the identity is not counted as a term',
         'C11 model: W entries are decomposed into an orthogonal basis of named operators (Id, Sp, Sm, Sz / Id, JW, C, Cd) with Gaussian-integer '
         'coefficients; operators are formal words over these names',
         'C11 oracle only (not modelled in Coq): expectation values, variance, overlap/distance, is_equal/is_hermitian, prefactor, apply* and '
@@ -1136,5 +1144,8 @@ def main(ctx):
 RULE = ('algebra: finite MPOs (L <= 5; spin-1/2, fermions; with/without charges) from random term lists (any operator order, several '
         'operators per site) or random W grids (standard form / dense, with / without IdL/IdR markers, max_range unknown) x pairs differing in one '
         'long-range term / coefficient / conjugation / nothing x random states x compression methods; infinite: iMPOs on a window and product iMPS; '
+        'results: sums in both orders / daggers / plus_identity / sums of sums of operands whose max_range is known, None (given by W tensors) or inf '
+        'in all 9 combinations, one operand with a coupling longer than the known range of the other, finite (L 4-6) and infinite (L 1-3): claimed '
+        'max_range of every result, is_equal, is_hermitian, to_TermList, expectation values (default / max_range / power / TM), variance of the RESULT; '
         'propagator: make_U_I / make_U_II at dt, dt/2, dt/4; c11_make_U_I: finite H (L <= 5, term lists / explicit graphs in and out of '
         'standard sum form, exact strengths, permuted virtual indices) x Gaussian-integer dt; non-trivial when the operator is not zero.')
